@@ -48,7 +48,7 @@ pub fn arg_str(args: &[String], name: &str) -> Option<String> {
 
 // ------------------------------------------------------------------------------------------
 // hang watchdog: every case loop calls `tick` with a description of the case it is about to
-// run; if no tick arrives for VERIF_HANG_MS (default 30 s, cases take milliseconds) the
+// run; if no tick arrives for VERIF_HANG_MS (default 60 s, cases take milliseconds) the
 // watchdog prints {"hang": <description>} as the last line and exits with code 3, so that a
 // loop that never terminates in the crate is reported with the input that triggers it.
 // ------------------------------------------------------------------------------------------
@@ -62,7 +62,7 @@ fn now_ms() -> u64 {
 }
 
 pub fn watchdog_start() {
-    let limit: u64 = std::env::var("VERIF_HANG_MS").ok().and_then(|s| s.parse().ok()).unwrap_or(30_000);
+    let limit: u64 = std::env::var("VERIF_HANG_MS").ok().and_then(|s| s.parse().ok()).unwrap_or(60_000);
     WD_LAST.store(now_ms(), Ordering::SeqCst);
     std::thread::spawn(move || loop {
         std::thread::sleep(std::time::Duration::from_millis(200));
@@ -74,6 +74,11 @@ pub fn watchdog_start() {
             std::process::exit(3);
         }
     });
+}
+
+/// the case loop is over (building and printing the output can take long for large runs): stop watching
+pub fn wd_pause() {
+    WD_LAST.store(0, Ordering::SeqCst);
 }
 
 /// heartbeat: `desc` is only built when called, keep it cheap (it is stored, not printed)
@@ -95,4 +100,29 @@ pub fn set_cmd(c: String) {
 pub fn tick_idx(i: u64, extra: serde_json::Value) {
     let cmd = WD_CMD.lock().map(|g| g.clone()).unwrap_or_default();
     tick(|| serde_json::json!({"cmd": cmd, "case_index": i, "input": extra}).to_string());
+}
+
+/// sizes suggested by the driver (integer magnitudes that are new in a changed source file: possible thresholds);
+/// generators use values around them for sketch sizes, stream lengths and vector lengths in a few extra cases
+pub fn extra_sizes() -> Vec<u64> {
+    std::env::var("VERIF_SIZES").ok().map(|s| s.split(',').filter_map(|x| x.trim().parse::<u64>().ok()).filter(|x| *x >= 2).collect()).unwrap_or_default()
+}
+/// every value next to a suggested size that does not exceed `cap`, largest first, at most `n` of them
+pub fn near_sizes_all(xs: &[u64], cap: u64, n: usize) -> Vec<u64> {
+    let mut v: Vec<u64> = Vec::new();
+    for s in xs {
+        for c in [s.saturating_sub(1), *s, s + 1, 2 * s + 1, s + s / 2 + 3, 4 * s + 1, 8 * s + 3] {
+            if c >= 2 && c <= cap && !v.contains(&c) { v.push(c); }
+        }
+    }
+    v.sort_unstable_by(|a, b| b.cmp(a));
+    v.truncate(n);
+    v
+}
+/// a value next to one of the suggested sizes: s-1, s, s+1, 2s+1, s + s/2 + 3, 4s+1, 8s+3
+pub fn near_size(rng: &mut SplitMix64, xs: &[u64], cap: u64) -> Option<u64> {
+    if xs.is_empty() { return None; }
+    let s = xs[rng.below(xs.len() as u64) as usize];
+    let v = match rng.below(8) { 0 => s.saturating_sub(1), 1 => s, 2 => s + 1, 3 => 2 * s + 1, 4 => s + s / 2 + 3, 5 => 4 * s + 1, 6 => 8 * s + 3, _ => s };
+    Some(v.clamp(1, cap))
 }
